@@ -115,6 +115,20 @@ func init() {
 			x.block("yield", func() bool { return true })
 			return nil
 		},
+		// verifQuiesce: wait until every other goroutine is finished or blocked
+		"verifQuiesce": func(fr *frame, a []Value) Value {
+			x := fr.x
+			me := x.cur
+			x.block("quiesce", func() bool {
+				for _, g := range x.goroutines {
+					if g != me && !g.done && (g.ready == nil || g.waitDesc != "quiesce" && g.ready()) {
+						return false
+					}
+				}
+				return true
+			})
+			return nil
+		},
 		// verifGoroutines: number of live goroutines other than the caller
 		"verifLiveGoroutines": func(fr *frame, a []Value) Value {
 			x := fr.x
